@@ -14,6 +14,8 @@ import (
 	"github.com/avfs/avfs"
 	"github.com/avfs/avfs/vfs/basepathfs"
 	"github.com/avfs/avfs/vfs/failfs"
+	"github.com/avfs/avfs/vfs/memfs"
+	"github.com/avfs/avfs/vfs/orefafs"
 	"github.com/avfs/avfs/vfs/osfs"
 	"github.com/avfs/avfs/vfs/rofs"
 
@@ -36,6 +38,16 @@ func c16Side(kind, scratch string, n int) (base avfs.VFS, dir string) {
 		m := newBase("MemFS")
 		_ = m.MkdirAll("/bp", 0o755)
 		return basepathfs.New(m, "/bp"), "/"
+	case "MemFS/Windows", "OrefaFS/Windows":
+		// Windows-typed instances (workers of the avfs_setostype build): other default modes, other path syntax
+		var v avfs.VFS
+		if kind == "OrefaFS/Windows" {
+			v = orefafs.NewWithOptions(&orefafs.Options{OSType: avfs.OsWindows})
+		} else {
+			v = memfs.NewWithOptions(&memfs.Options{OSType: avfs.OsWindows})
+		}
+		_ = v.MkdirAll(`C:\d`, 0o755)
+		return v, `C:\d`
 	default:
 		v := newBase(kind)
 		_ = v.MkdirAll("/d", 0o755)
@@ -216,6 +228,7 @@ func init() {
 				Rule:        "for every (function, source fs, destination fs, size, mode) scenario - modes include bits a umask of 022 would clear, and in one scenario in three the destination already exists, longer and with other permission bits -: pass 1 records the sequence of FailFS consultations of an unfailed run and checks the post-condition by reading back through the base file systems; pass 2 re-runs the scenario once per index of that sequence with exactly that consultation failing (exhaustive single-fault enumeration, both sides). A nil error must imply equal bytes, equal permission bits and the right digest; a failure injected into open/read/write/sync/stat/chmod/close(dst) must yield a non-nil error. In half of the unfailed runs a second copy is started from inside the failure callback right before the first write to the destination (two copies overlapping on one goroutine): both destinations must be right. Plus files of 3 MiB (thorough 1, 3, 8 MiB, odd sizes) for every (function, source, destination) with faults at a sample of the consultations. Signature = function | fs pair | injected primitive | error-or-not; non-trivial = a fault was injected.",
 				Assumptions: []string{"a failure of closing the source is not in the property's list: only the post-condition is checked for it", "OsFS legs run in a harness-built directory on tmpfs"}}
 		},
+		OSShards: 1,
 		Run: func(c *rt.Ctx) {
 			hook.Sequential()
 			if c.Scratch == "" {
@@ -225,6 +238,13 @@ func init() {
 			}
 			sizes := []int{0, 1, 32767, 32768, 32769, 65537}
 			kinds := []string{"MemFS", "OrefaFS", "OsFS", "BasePathFS(MemFS)"}
+			if os.Getenv("VERIF_PART") == "os" {
+				if avfs.BuildFeatures()&avfs.FeatSetOSType == 0 {
+					c.Rep.Inconclusive = append(c.Rep.Inconclusive, "the Windows-typed part runs in a worker built without the avfs_setostype tag")
+					return
+				}
+				kinds = []string{"MemFS/Windows", "OrefaFS/Windows"}
+			}
 			modes := []fs.FileMode{0o600, 0o644, 0o755, 0o400, 0o666, 0o777, 0o604}
 			rounds := 1
 			if !c.Quick() {
@@ -234,7 +254,11 @@ func init() {
 			fns := []string{"CopyFile", "CopyFileHash/sha256", "CopyFileHash/sha512", "HashFile/sha256"}
 			caseNo := 0
 			for _, fnName := range fns {
-				for _, sk := range append(append([]string{}, kinds...), "RoFS(MemFS)") {
+				srcKinds := append(append([]string{}, kinds...), "RoFS(MemFS)")
+				if os.Getenv("VERIF_PART") == "os" {
+					srcKinds = append(append([]string{}, kinds...), "MemFS")
+				}
+				for _, sk := range srcKinds {
 					for _, dk := range kinds {
 						if fnName == "HashFile/sha256" && dk != kinds[0] {
 							continue
